@@ -212,13 +212,23 @@ func (s *scope) CreateScope(ctx context.Context) (Scope, error) {
 		return nil, fmt.Errorf("failed to create child scope: %w", err)
 	}
 
-	// Track child
+	// Track child (the parent may have been closed in the meantime)
 	s.childrenMu.Lock()
+	if s.children == nil {
+		s.childrenMu.Unlock()
+		_ = child.Close()
+		return nil, ErrScopeDisposed
+	}
 	s.children[child] = struct{}{}
 	s.childrenMu.Unlock()
 
-	// Track in provider
+	// Track in provider (the provider may have been closed in the meantime)
 	s.rootProvider.scopesMu.Lock()
+	if s.rootProvider.scopes == nil {
+		s.rootProvider.scopesMu.Unlock()
+		_ = child.Close()
+		return nil, ErrProviderDisposed
+	}
 	s.rootProvider.scopes[child] = struct{}{}
 	s.rootProvider.scopesMu.Unlock()
 
@@ -316,22 +326,38 @@ func (s *scope) getInstance(key instanceKey) (any, bool) {
 // setInstance caches an instance in this scope in a thread-safe manner.
 // It also tracks the instance if it implements the Disposable interface
 // for proper cleanup when the scope is closed.
-func (s *scope) setInstance(descriptor *Descriptor, key instanceKey, instance any) {
+//
+// If the scope was closed while the instance was being created, the instance
+// is disposed right away and ErrScopeDisposed is returned: it is neither cached
+// nor handed out.
+func (s *scope) setInstance(descriptor *Descriptor, key instanceKey, instance any) error {
 	switch descriptor.Lifetime {
 	case Singleton:
-		s.rootProvider.setSingleton(key, instance)
+		return s.rootProvider.setSingleton(key, instance)
 	case Scoped:
 		s.instancesMu.Lock()
-		s.instances[key] = instance
+		if s.instances != nil {
+			s.instances[key] = instance
+		}
 		s.instancesMu.Unlock()
 		fallthrough
 	case Transient:
 		if d, ok := instance.(Disposable); ok {
 			s.disposablesMu.Lock()
+			if atomic.LoadInt32(&s.disposed) != 0 {
+				// Close may already have drained the list: dispose here instead
+				s.disposablesMu.Unlock()
+				_ = d.Close()
+				return ErrScopeDisposed
+			}
 			s.disposables = append(s.disposables, d)
 			s.disposablesMu.Unlock()
+		} else if atomic.LoadInt32(&s.disposed) != 0 {
+			return ErrScopeDisposed
 		}
 	}
+
+	return nil
 }
 
 var (
@@ -433,7 +459,9 @@ func (s *scope) createInstance(descriptor *Descriptor) (any, error) {
 			Group: descriptor.Group,
 		}
 
-		s.setInstance(descriptor, key, instance)
+		if err := s.setInstance(descriptor, key, instance); err != nil {
+			return nil, err
+		}
 		return instance, nil
 	}
 
@@ -477,7 +505,9 @@ func (s *scope) createInstance(descriptor *Descriptor) (any, error) {
 			Key:   descriptor.Key,
 			Group: descriptor.Group,
 		}
-		s.setInstance(descriptor, key, emptyStruct)
+		if err := s.setInstance(descriptor, key, emptyStruct); err != nil {
+			return nil, err
+		}
 		return emptyStruct, nil
 	}
 
@@ -531,7 +561,9 @@ func (s *scope) createInstance(descriptor *Descriptor) (any, error) {
 				Group: reg.Group,
 			}
 
-			s.setInstance(regDescriptor, key, value)
+			if err := s.setInstance(regDescriptor, key, value); err != nil {
+				return nil, err
+			}
 		}
 
 		if primaryService == nil {
@@ -569,7 +601,9 @@ func (s *scope) createInstance(descriptor *Descriptor) (any, error) {
 				Group: serviceDescriptor.Group,
 			}
 
-			s.setInstance(serviceDescriptor, key, value)
+			if err := s.setInstance(serviceDescriptor, key, value); err != nil {
+				return nil, err
+			}
 		}
 
 		return results[descriptor.MultiReturnIndex].Interface(), nil
@@ -589,7 +623,9 @@ func (s *scope) createInstance(descriptor *Descriptor) (any, error) {
 		Group: descriptor.Group,
 	}
 
-	s.setInstance(descriptor, key, instance)
+	if err := s.setInstance(descriptor, key, instance); err != nil {
+		return nil, err
+	}
 	return instance, nil
 }
 
